@@ -15,6 +15,7 @@ RULE = ("ENUMERATED: for transition-list length L=1..5 all 2^L live/dead pattern
         "states, dead chains; live targets with distinct or tied values; random numbering); plus random games of the other classes. "
         "The invariant is evaluated by M-PRUNE at the exit of the real pruning step.  Non-trivial: the pruning step removed at least "
         "one transition; distinct = game hash.  exhaustive refers to the pattern sub-space only.")
+RULE += (' Also (rounds 5-6): G-GAP/G-GAPLOOP (values 1e-9..1e-4 apart around the 6-digit resolution), G-CORR, G-BIGR, G-DIGIT (digit-only / ambiguous action names), G-RETRY (cycles through state 0), G-FINREP (final states listed repeatedly, as list or tuple); a seventh of the solves pass the pruning flag as the int 1/0; an eighth of the batches each run with the root logger at DEBUG, under python -O, and with warnings raised on behalf of the repository turned into errors. THREADS class: the real code called from 3-4 threads of one interpreter (1 us switch interval, yield injection at every ~1000-3000th executed line), each concurrent outcome compared with the sequential outcome of the same process.')
 FLOOR = 500
 REQUIRED = ["prune.exits", "prune.removed"]
 EXHAUSTIVE = True
